@@ -123,7 +123,7 @@ Print Assumptions C16_type_byte_refuted.
 
 (* ------------------------------------------------------------------ snapshot files *)
 
-(* Snapshotter.Load: the snapshot returned is the NEWEST file (*.snap, by name) that passes
+(* Snapshotter.Load: the snapshot returned is the NEWEST file (suffix .snap, by name) that passes
    snap.Read (wrapper parses, data non-empty, CRC matches, inner message parses); every newer
    file is damaged and exactly those are renamed to .broken; no snapshot is returned only when
    none is intact *)
